@@ -154,7 +154,7 @@ theorem last_def_typescript (U : UnicodeOps) (cfg : TypeScript.Cfg) (it : RustIt
 theorem last_def_kotlin (cfg : Kotlin.Cfg) (it : RustItem) (h : isConst it = false) :
     ((ktDefs cfg it).map (·.2)).getLast? = some (C09.defName (.kotlin cfg) it) := by
   cases it with
-  | alias a => by_cases hi : Kotlin.isInline a.decorators = true <;> simp [ktDefs, C09.defName, hi]
+  | alias a => by_cases hi : Kotlin.isInline a.decorators = true <;> simp [ktDefs, C09.defName, C09.itemId, hi]
   | const c => simp [isConst] at h
   | struct s => simp [ktDefs, C09.defName, C09.itemId]
   | «enum» e => simp [ktDefs, C09.defName, C09.itemId]
@@ -183,15 +183,15 @@ theorem last_def_go (U : UnicodeOps) (cfg : Go.Cfg) (hc : cfg.uppercaseAcronyms 
     (defs.map (·.2)).getLast? = some (C09.defName (.go cfg) it) := by
   have hacr := C09.go_acr U cfg hc
   cases it with
-  | struct s => simp [goDefs, hacr] at hd; subst hd; simp [C09.defName]
+  | struct s => simp [goDefs, hacr] at hd; subst hd; simp [C09.defName, C09.itemId]
   | alias a => simp [goDefs, hacr] at hd; subst hd; simp [C09.defName, C09.itemId]
   | const c => simp [isConst] at h
   | «enum» e =>
     simp only [goDefs, hacr, Outcome.bind_ok] at hd
     obtain ⟨inner, _, hd⟩ := bindOk hd
     cases hk : e.keys with
-    | none => simp [hk] at hd; subst hd; simp [C09.defName, C09.itemId]
-    | some kc => simp [hk] at hd; subst hd; simp [C09.defName, C09.itemId]
+    | none => simp [hk] at hd; subst hd; simp [C09.defName]
+    | some kc => simp [hk] at hd; subst hd; simp [C09.defName]
 
 /-! ## 3. composed with the parse half: a single-file run -/
 
